@@ -58,6 +58,20 @@ def assemble(prog, cls_qual, as_operators, run=None, inline_depth=5):
     return selfo, it
 
 
+def coverage_obligation(run, rid, construct, it, loc):
+    """The index algebra treats a contribution stored under a loop index as covering the whole axis it
+    addresses.  This obligation discharges that assumption for one interpreted assembler: every loop
+    that fills an axis of an array allocated in the same function runs over the length the axis was
+    allocated with (following plain name bindings, both arms of conditionals)."""
+    gaps = it.coverage_gaps
+    run.obligation(rid, construct, not gaps, key="loops-cover-axes",
+                   message="a loop fills only part of an axis: %s" % "; ".join(
+                       "%s axis %d is allocated with %s but filled by a loop up to %s (%s)"
+                       % (g["array"], g["axis"], g["allocated"], g["loop_bound"], g["loc"]) for g in gaps[:3]),
+                   loc=gaps[0]["loc"] if gaps else loc,
+                   sample={"construct": construct, "stores_interpreted": it.stores, "gaps": len(gaps)})
+
+
 def tensor_identities(run, rid, construct, RR, facts, loc, time_rank=0, what="tensor",
                       assumptions=()):
     """Trace and Hermiticity obligations on a rank-(4+time_rank) array."""
